@@ -282,7 +282,10 @@ def render_cell(c, lay=None, with_imp=True):
     txt = head + '  ' + render_expr(c.expr, lay)
     opts = []
     if with_imp:
-        opts.append('imp:n=%s' % fnum(c.imp) if not isinstance(c.imp, str) else 'imp:n=%s' % c.imp)
+        if c.hints.get('imp_text'):
+            opts.append(c.hints['imp_text'])      # several particles: imp:n,p=… / imp:n=… imp:p=…
+        else:
+            opts.append('imp:n=%s' % fnum(c.imp) if not isinstance(c.imp, str) else 'imp:n=%s' % c.imp)
     if c.u:
         opts.append('u=%d' % c.u)
     if c.trcl is not None:
